@@ -169,7 +169,7 @@ func TestC40(t *testing.T) {
 	}
 
 	// ---- 1. names ------------------------------------------------------------------------
-	nNames := r.N(400_000, 16_000_000)
+	nNames := r.N(400_000, 40_000_000)
 	var wg sync.WaitGroup
 	var mu sync.Mutex
 	lenHist := make([]int64, 18)
